@@ -16,7 +16,7 @@ def run(prop, tier):
     nprog = 30 if tier == "quick" else 200
     nseeds = 16 if tier == "quick" else 32
     base = common.seed() * 1000
-    units += [dict(fn="unit_layout", seed=base + s, programs=nprog, kind="layout (bounded)") for s in range(nseeds)]
+    units += [dict(fn="unit_layout", seed=base + s, programs=nprog, kind="layout (bounded)", replayer="contracts.asmlayout:replay_layout") for s in range(nseeds)]
     reps = common.run_units("contracts.asmlayout:unit_any", units, budget=900)
     lem = [r for r in reps if r["unit"]["fn"] != "unit_layout"]
     lay = [r for r in reps if r["unit"]["fn"] == "unit_layout"]
